@@ -32,6 +32,8 @@ claimed = {
    "Thin: decides that every do_if operator constant is constructed and explicitly handled in every evaluation switch; that each comparison tag, field operator and logical operator is implemented by the matching primitive/shape; that evaluation is pure; and the or/and/invert shapes of legacy match_fields. The value-list short-cuts, value ordering, case folding and timestamp parsing are not decided."),
  "C19": ("typed-AST reset-before-append rule over every batched output's send function, raw-string taint into byte-buffer appends in output packages, sibling agreement of the split-and-resend helpers, CFG rules for the Kafka record loop and Batch.ForEach", "§3 C19",
    "Decides structural necessary conditions of well-formed exactly-once payloads: per-event buffers truncated before iteration in all ten batched outputs, no raw event string appended to an output buffer, split halves (left,m)/(m,right) with the second only after the first succeeded and body data[begin[left]:begin[right]], one Kafka record slot per callback and messages[:i] produced, ForEach visiting every event but split parents in order. It does not decide byte-level validity of a payload."),
+ "C12": ("difference-constraint (ABCD-style) bounds prover over go/ssa with phi-per-edge proofs, global load numbering, library post-conditions and conditional helper summaries; exit / unchecked-assertion reachability; parameter-buffer write enumeration; lock-region and alias-after-unlock check", "§3 C12",
+   "Decides that every index/slice expression of the decode path is in bounds (each clause separately: lower, order, upper vs cap) by proof or by a reviewed entry with its reason; that no process exit, explicit panic or unchecked type assertion is reachable there outside the reviewed table; that writes into the caller's data buffer are exactly the enumerated reviewed ones; that mutex-protected decoder scratch state is not accessed or aliased outside its lock. It does not decide fidelity, 'exactly its fields' or JSON validity after cuts."),
 }
 NA = {
  "C06": "the claim is an equation between runtime byte positions (offset = start + scanned) for every content, buffer size and append split; no sound static argument in reach bounds it, and the only structural proxies are matches on one loop's arithmetic (a frozen fragment)",
